@@ -202,7 +202,7 @@ Program(L, x) ==
 PureOps ==
   << [op |-> "insert", guest |-> "g0", i |-> 2], [op |-> "insert", guest |-> "g0", i |-> 0],
      [op |-> "embed", guest |-> "g0", i |-> 3], [op |-> "delete", i |-> 1, n |-> 2], [op |-> "erase", i |-> 2, n |-> 3],
-     [op |-> "slice", s |-> 1, e |-> 5], [op |-> "slice", s |-> 4, e |-> 2], [op |-> "rotate", n |-> 2],
+     [op |-> "slice", s |-> 1, e |-> 5], [op |-> "slice", s |-> 4, e |-> 2], [op |-> "slice", s |-> 0, e |-> 6], [op |-> "rotate", n |-> 2],
      [op |-> "reverse"], [op |-> "complement"], [op |-> "transcribe"], [op |-> "concatg"], [op |-> "concat2"],
      [op |-> "repair"], [op |-> "filter", sel |-> "gene"], [op |-> "finsert", feat |-> [key |-> "gene", label |-> "new", loc |-> Rg(1, 3, FALSE, FALSE)]],
      [op |-> "withfeatures"], [op |-> "withbytes"], [op |-> "withinfo"], [op |-> "copy"] >>
